@@ -247,8 +247,8 @@ var c09Families = [][]string{
 	{"text/template", "html/template"},
 	{"net/http/pprof", "runtime/pprof"},
 	{"go/scanner", "text/scanner"},
-	{"a.b/x", "c.d/x", "e.f/x", "a.b/x1"},
-	{"a/123", "a/-", "a//", "/", "x.y/pkg"}, // all guessed as "pkg"
+	{"a.b/x", "c.d/x", "e.f/x", "a.b/x1", "a/é9x"}, // é9x -> 9x -> x
+	{"a/123", "a/-", "a//", "/", "x.y/pkg", "a.b/9_", "x.y/__"}, // all guessed as "pkg"
 }
 
 var c09Hints = []string{"rand", "rand1", "d", "d1", "x", "x1", "fmt", "os", "pkg", "pprof", "template", "scanner"}
